@@ -65,13 +65,46 @@ def consumers(ctx):
     return evs
 
 
+def import_target_events(ctx):
+    """the third consumer: `#import` targets.  Import graphs over directories p, p/sub, p/.hidden, p/sub/x.y that all contain a file
+    frags.graphql (distinct fragment names) and a page that imports it under the SAME specifier text; resolved by the real resolver"""
+    dirs = [["p"], ["p", "sub"], ["p", ".hidden"], ["p", "sub", "x.y"]]
+    tag = {0: "P", 1: "S", 2: "H", 3: "X"}
+    cases = []
+    for mask in range(1, 16):
+        used = [k for k in range(4) if mask >> k & 1]
+        for spec_style in range(3):
+            files = []
+            for k in used:
+                d = dirs[k]
+                spec = [[".", "frags.graphql"], [".", ".", "frags.graphql"], [".", "zz", "..", "frags.graphql"]][spec_style]
+                files.append({"path": d + ["frags.graphql"], "d": {"ok": True, "imports": [], "ops": [], "frags": [{"name": "Frag" + tag[k], "spreads": []}, {"name": "Same", "spreads": []}]}})
+                files.append({"path": d + ["page.graphql"], "d": {"ok": True, "imports": [{"spec": spec, "wild": mask % 2 == 0, "names": [] if mask % 2 == 0 else ["Same", "Frag" + tag[k]]}],
+                                                             "ops": [], "frags": [{"name": "Page" + tag[k], "spreads": []}]}})
+            root_imports = []
+            for k in used:
+                rel = [".."] * 0 + (["."] + dirs[k][1:] + ["page.graphql"])
+                root_imports.append({"spec": rel, "wild": True, "names": []})
+            files.append({"path": ["p", "root.graphql"], "d": {"ok": True, "imports": root_imports, "ops": [{"name": "Q", "spreads": []}], "frags": []}})
+            cases.append({"files": files, "root": ["p", "root.graphql"]})
+    vlib.write_ndjson(ctx.path("imp_cases.ndjson"), cases)
+    vlib.run_harness(["imports", ctx.path("imp_cases.ndjson"), ctx.path("imp_events.ndjson")])
+    evs = []
+    for e in vlib.read_ndjson(ctx.path("imp_events.ndjson")):
+        if e["out"]["k"] == "discard":
+            raise vlib.ToolError("import-target case discarded: %s" % str(e["out"])[:200])
+        e["ev"] = "ImportTargets"
+        evs.append(e)
+    return evs
+
+
 def run(ctx, res):
     # design level: nitrogql's algorithm against the contract, all pairs to depth 4 (5 in thorough)
     mc = vlib.tlc("PathsAlgo", "MC_PathsAlgo.cfg" if ctx.quick else "MC_PathsAlgo_thorough.cfg",
                   workdir=ctx.work, workers=8, timeout=1500, xmx="6g")
     res.add_tlc(mc)
     cases, events = gen_events(ctx, res)
-    consumer_events = consumers(ctx)
+    consumer_events = consumers(ctx) + import_target_events(ctx)
     events = events + consumer_events
     o = vlib.validate_trace("Trace_C20", "Trace_C20.cfg", events, workdir=ctx.work)
     res.add_trace(o)
@@ -85,7 +118,8 @@ def run(ctx, res):
                 "Trace_C20; likewise every pair over {x,.h,...,.,..} to depth 3 (names that only start with a dot); plus seeded random pairs to depth 7. Consumers: %d events from real CLI runs (output names with inner dots, "
                 ".d.ts / .d.mts / .d.cts / .ts, output directories above / below / beside the inputs): the schema module specifier of every "
                 "operation and resolver declaration file must be relative and resolve to the schema declaration file after the documented "
-                "TS -> JS extension rewrite, and every `sources` entry of every source map must resolve to an input file. "
+                "TS -> JS extension rewrite, every `sources` entry of every source map must resolve to an input file, and every `#import` must resolve to the file its specifier names "
+                "relative to the importing file (45 import graphs over four directories - one hidden, one dotted - that use the same specifier text). "
                 "Non-trivial = pair inside the property's domain (PairInDomain)." % (4 if ctx.quick else 5, len(consumer_events)))
     res.samples = [e for e in events[:400:57]]
     res.extra["mc_pathsalgo_distinct_states"] = mc.distinct
